@@ -161,7 +161,14 @@ def c07_stream(tier, seed):
             other = G.meta_doc(name=b"other", piece_length=2, length=rng.below(6))
             er.append((rng.choice([b"info.utf-8", b"info.utf8", b"info2", b"Info"]), [v for k, v in other[1] if k == b"info"][0]))
         ei = [(k, G.gen_value(rng, 3)) for k in rng.shuffle([b"private", b"source", b"x", b"zzz", b"e", b"de", b"4:name"])[:rng.range(0, 4)]]
-        out.append(("load " + hx(G.benc(G.meta_doc(extra_root=er, extra_info=ei, **kw))), "valid+decoys"))
+        doc = G.benc(G.meta_doc(extra_root=er, extra_info=ei, **kw))
+        out.append(("load " + hx(doc), "valid+decoys"))
+        if i % 6 == 0:
+            # the same document with white space in front of it or around it: if a front end tolerates that, the info
+            # span must still be the one the hash is taken of
+            ws = rng.choice([b"\n", b" ", b"\r\n", b"\t\t", b"\x0c"])
+            out.append(("load " + hx(ws + doc), "white space in front"))
+            out.append(("load " + hx(doc + ws), "white space behind"))
     return out
 
 def c06_stream(tier, seed):
